@@ -713,6 +713,13 @@ class Gen:
         return self.wrap_of(inner, w)
 
     def wrap_of(self, inner, w):
+        if w in ("newtype", "alias") and self.rng.random() < 0.2:
+            # defined inside a function (its name matches its variable there, as typing asks), handed out under another module-level
+            # name: the wrapper cannot be imported from its module by its own name
+            name = self.prog.fresh("N" if w == "newtype" else "A")
+            ctor = "NewType" if w == "newtype" else "TypeAliasType"
+            self.prog.emit(f"def _mk_{name}():\n    {name} = typing.{ctor}({name!r}, {inner.src})\n    return {name}\nL{name} = _mk_{name}()")
+            return self.prog.spec("wrap", f"L{name}", [inner], w=w, name=f"L{name}")
         if w == "newtype":
             name = self.prog.fresh("N")
             self.prog.emit(f"{name} = typing.NewType({name!r}, {inner.src})")
